@@ -399,11 +399,11 @@ pub fn for_net(net: &Net, tier: Tier, st: &mut Stats) {
         let m = net.m();
         for o in 0..m {
             for d in 0..m {
-                if o != d && (o * 7 + d * 3 + idx as usize) % tier.pick(16, 2) == 0 {
+                if o != d && (o * 7 + d * 3 + idx as usize) % tier.pick(24, 2) == 0 {
                     check_net(&w, algo, &Orient::Edge { o, d: Some(d) }, false, tier, st);
                 }
             }
-            if !algo.is_ksp() && (o + idx as usize) % tier.pick(8, 1) == 0 {
+            if !algo.is_ksp() && (o + idx as usize) % tier.pick(12, 1) == 0 {
                 check_net(&w, algo, &Orient::Edge { o, d: None }, false, tier, st);
             }
         }
